@@ -80,6 +80,7 @@ def write_manifest(path):
 KANI_NOTE = 'Kani harnesses run the real frost-core at toy ciphersuites; complete where loop-free over full-domain inputs, otherwise bounded as labelled per harness'
 
 prop('C06',
+     kani=True,
      level_text='For every ciphersuite (abstract field/group), every (n,t), identifier list, key and RNG stream: Verus proves the real text of '
                 'split / generate_secret_shares / generate_secret_polynomial / evaluate_polynomial / evaluate_vss / SecretShare::verify / '
                 'KeyPackage::try_from / reconstruct / validate_num_of_signers against contracts that state the whole result (exact error per refused '
@@ -116,6 +117,7 @@ DKG_ASSUMED = ('Assumed: sum_commitments (iter_mut().enumerate() with `?`; Kani 
                'T7 identifier order, default world for the post_dkg hook (the Taproot suite overrides it: C18).')
 
 prop('C07',
+     kani=True,
      level_text='For every ciphersuite in the default world, every n, t, identifier set and per-participant polynomial: Verus proves the real text of ' + DKG_FUNCS +
                 ' against contracts stating the whole result of each part: part1 = ([fresh key][t-1 draws] polynomial, commitment G*coefficients, proof of knowledge '
                 '(kG, k + a0*c) with c = HDKG(enc(id)||enc(a0 G)||enc(kG))); part2 = f(l) for every sender l in the map and f(own id) kept; part3 = signing share = sum of '
@@ -204,6 +206,7 @@ SIGN_ASSUMED = ('Assumed: the multiscalar multiplication result inside compute_g
                 'BTreeMap::from([(k, v)]) is the one-entry map, the outlined `keys().cloned().collect()` idiom, T7 identifier order, default world (hooks not overridden; the '
                 'Taproot suite is decided in its own unit: C18).')
 prop('C01',
+     kani=True,
      level_text='For every ciphersuite in the default world (abstract field/group, H1..H5 arbitrary functions), every (n,t), identifier assignment, signer set and message: Verus proves the '
                 'real text of ' + SIGN_FUNCS + ' against contracts that state the WHOLE result: sign == spec_sign (z_i = d_i + e_i*rho_i + lambda_i*s_i*c with rho, lambda, R, c '
                 'computed from the package in ascending identifier order), aggregate_custom satisfies agg_result_is (refusals in guard order; else (R, sum z_i) if it passes RFC 9591 '
@@ -219,6 +222,7 @@ prop('C01',
      include=['C06', 'C07'],   # "keys from the trusted dealer or from distributed key generation": the key-generation contracts and theorems count for C01
      design_ref='DESIGN.md section 4 C01')
 prop('C03',
+     kani=True,
      level_text='Verus proves for all inputs: sign returns exactly Err(IncorrectNumberOfCommitments) when the package lists fewer than key_package.min_signers participants (first guard of '
                 'spec_sign); aggregate/aggregate_custom return exactly Err(IncorrectNumberOfShares) when fewer than public_key_package.min_signers shares are submitted (second guard '
                 'of agg_guard_err, after the size-mismatch guard); reconstruct returns Err(IncorrectNumberOfShares) below the smallest recorded threshold (contract in contracts/keys.vc); the '
@@ -296,6 +300,7 @@ prop('C17', units=['frost_rerandomized'],
      design_ref='DESIGN.md section 4 C17')
 
 prop('C14',
+     kani=True,
      all_functions=True, units=['frost_core', 'frost_rerandomized'],
      level_text='Verus proves every function of the frost_core unit that is emitted in verified mode (all protocol steps that consume material from other parties: sign, aggregate, '
                 'aggregate_custom, verify_signature_share, detect_cheater, SecretShare::verify, KeyPackage::try_from, reconstruct, dkg part1/part2/part3, refresh_share, '
@@ -315,6 +320,7 @@ prop('C14',
      design_ref='DESIGN.md section 4 C14')
 
 prop('C12',
+     kani=True,
      rt_always=True, rt_budget=12,
      rt_what='codec sweep on the six real suites: for valid scalar/element/composite encodings every value at bytes 0,1,n/2,n-2,n-1, every single-bit flip, random/0xff/zero strings, wrong '
              'lengths, special points (identity, small/mixed order, SEC1 tags), out-of-range scalars, wrong header version / ciphersuite id; oracle: decode Ok ==> re-encode == input',
@@ -334,6 +340,7 @@ prop('C12',
                   'serde + postcard + serde_json derive output for whole packages is not verified (sampled round trips only)'],
      design_ref='DESIGN.md section 4 C12')
 prop('C02',
+     kani=True,
      include=['C15'],
      level_text='The contracts of the signing path are written from RFC 9591 (sections 4.1-4.6, 5.1-5.3) and fix every intermediate value byte for byte / scalar for scalar, for ALL inputs: '
                 'nonce = H3(random_bytes || SerializeScalar(share)) (C15 contracts); commitments = G*nonce; encode_group_commitment_list = concatenation of enc(id)||enc(D)||enc(E) in '
@@ -349,6 +356,7 @@ prop('C02',
                   'Identifier::try_from(u16) (assumed contract)'],
      design_ref='DESIGN.md section 4 C02')
 prop('C16',
+     kani=True,
      level_text='The random source is modelled as a ghost byte stream with a position (T9); Field::random(stream, pos) is an abstract function of the bytes it consumes and consumes at least one. '
                 'Verus proves the real text of generate_secret_polynomial / generate_secret_shares / split / generate_with_dealer, SigningKey::new / random_nonzero (rejection loop, partial '
                 'correctness), dkg part1 / compute_proof_of_knowledge, repair_share_part1, compute_refreshing_shares, batch Verifier::verify, the nonce functions (C15), the generate_nonce and '
@@ -362,5 +370,33 @@ prop('C16',
      assumptions=['T9 ghost-stream model of CryptoRng', 'generate_coefficients == the next `size` Field::random draws (assumed; Kani bounded)',
                   'distinct stream positions give distinct values only up to collisions of Field::random / H3'],
      design_ref='DESIGN.md section 4 C16')
+
+prop('C20',
+     category='model_checking', units=[], kani=True, kani_required=True,
+     technique='bounded/complete model checking (Kani/CBMC) of the real zeroize / drop / Debug code of frost-core at toy ciphersuites; no deductive contract can express "no copy is left in the '
+               'storage it occupied" (Verus erases Drop and has no memory model for deallocated storage)',
+     level_text='Kani harnesses over the REAL frost-core code monomorphised at toy ciphersuites: for every secret-bearing type (SigningKey, SigningShare, Nonce, SecretShare, KeyPackage, '
+                'SigningNonces, dkg round1/round2 SecretPackage, dkg round2 Package) zeroize() leaves every secret scalar equal to zero and drop_in_place leaves zeros in the slot the value '
+                'occupied (inline storage; ManuallyDrop/forgotten negative controls must FAIL), for ALL values of the toy scalar type; the manual Debug impls are checked not to format the secret. '
+                'Complete harnesses (no loops / width-bounded) cover the full toy domain; harnesses with Vec fields are bounded to the stated lengths.',
+     level_note='This is model checking of a monomorphic instance, not a proof for all ciphersuites: the zeroize code is generic and does not branch on the suite, but that is an argument, not a '
+                'theorem. Heap buffers freed by Vec (coefficients of dkg::round1::SecretPackage) are checked through the zeroize-before-free glue running, not by inspecting freed memory (CBMC has no '
+                'model of freed storage); the concrete replay search (rt/ C20, sampled) inspects the real allocator blocks. Copies made by the compiler (moves, spills) are outside any source-level check.',
+     assumptions=['toy ciphersuite stands for all suites (the code under check is generic and suite-independent)', 'zeroize::optimization_barrier stubbed (no semantic effect)',
+                  'compiler-introduced copies of Copy scalars (moves, register spills) are not visible at source level'],
+     design_ref='DESIGN.md section 4 C20')
+prop('C13',
+     kani=True, rt_always=True, rt_budget=15,
+     rt_what='persist-and-resume on the six real suites: at every round boundary (after dkg part1 / part2, refresh part1 / part2, commit, key generation) the secret state is serialized, '
+             'deserialized and used for the remaining steps; oracle: byte-identical later outputs and no refusal',
+     level_text='Two halves. (1) Every step after a round boundary is a FUNCTION of the values it is given: Verus proves dkg part2 / part3, the refresh steps, round2::sign and aggregate against contracts '
+                'of the form `result == spec(arguments)` (or a relation fixing every field), and the library keeps no state between calls (no statics / interior mutability: scanned), so a '
+                'decoded copy that is equal to the stored value yields exactly the same outputs. (2) decode(encode(x)) == x for the state types (dkg round1/round2 SecretPackage, SigningNonces, '
+                'KeyPackage, PublicKeyPackage): the serde/postcard code is feature-gated and outside the Verus unit; Kani proves serialize(x) == enc(x) and deserialize(enc(x)) == Ok(x) on toy suites '
+                '(complete for KeyPackage, bounded lengths otherwise), and the concrete persist-and-resume run on the six real suites is executed on EVERY check run (sampled).',
+     level_note='Half (2) is bounded/sampled, not proved for all values. The own-state preconditions of part2/part3 (max_signers >= 1, non-empty coefficients) are what a decoded package must still '
+                'satisfy: a corrupted store is outside the property (honestly generated state).',
+     assumptions=['serde + postcard derive output (bounded Kani on toy suites + sampled concrete runs)', 'PartialEq on the state types is structural equality (E2)'],
+     design_ref='DESIGN.md section 4 C13')
 
 prop('CDEV', level_text='dev', level_note='dev', claimed=False)
